@@ -3,18 +3,18 @@ CFG = dict(
     claim="Theorems C10_returns (Q: after Stop or a failed write, once the handlers honour their context, Serve has returned), "
           "C10_write_failure_cancels, C10_returns_readfail (Q), C10_streams_done (at Serve's return every stream handler goroutine "
           "has finished), C10_ctx (the context of every handler, unary or streaming, is done by then) and C10_no_leak (Q: once the "
-          "handlers have returned the writer, all workers and all handler goroutines are dead), C10_measure / C10_terminates ((T): a weight every internal rule strictly decreases: no live-lock, quiescence is reached) in coq/Props/C10.v, over all label "
+          "handlers have returned the writer, all workers and all handler goroutines are dead), C10_measure / C10_terminates ((T): a weight every internal rule strictly decreases: no live-lock, quiescence is reached), and composed: C10_trigger_returns (after Stop or a failed write at any point, wherever any continuation comes to a FINAL state - no internal rule enabled, no handler with a done context still in its body - Serve has returned, every handler context is done, no goroutine and no registration is left), C10_closed_terminates / C10_closed_reaches_final (the system closed under handlers that return from their body terminates in at most `measure` steps, in a final state), C10_trigger_returns_readfail_partial (the same for a read failure under three named hypotheses that keep the read loop from being parked, each shown necessary: C10_readfail_refuted_workers / _queue / _wblock) in coq/Props/C10.v, over all label "
           "sequences of the small-step model coq/Model/Server.v (any traffic, any handler behaviour, trigger at any point, any "
           "interleaving); the model is run lock-step against the real goat.Server.Serve on every run.",
     props="Props/C10.v",
-    theorems=["C10_returns", "C10_write_failure_cancels", "C10_returns_readfail", "C10_streams_done", "C10_ctx", "C10_no_leak", "C10_measure", "C10_terminates"],
+    theorems=["C10_returns", "C10_write_failure_cancels", "C10_returns_readfail", "C10_streams_done", "C10_ctx", "C10_no_leak", "C10_measure", "C10_terminates", "C10_closed_terminates", "C10_closed_reaches_final", "C10_trigger_returns", "C10_trigger_returns_readfail_partial"],
     imports=["Model.Client", "Model.Server", "Check.ServerC", "Check.C10c"],
     case_type="c10case",
     find_bad_from="find_bad_from",
     go_tags="sv",
     rigs=[dict(test="TestC10", timeout_quick=400, timeout_thorough=1800)],
     reason_text={"7": "the server process died in this scenario (panic)", "8": "the connection never became quiescent again in this scenario: a goroutine waits for ever for a lock (wedge)", "1": "the real server's observation differs from every outcome of the Gallina model (Model/Server.v, all orders of internal rules)",
-                 "2": "Serve has not returned although the trigger (read failure / write failure / Stop) happened and every handler has returned",
+                 "2": "Serve has not returned although the trigger (read failure / write failure / Stop) happened and every handler has returned - or, after Stop, although no handler whose context is done is still running",
                  "3": "a stream handler goroutine was still alive when Serve returned",
                  "4": "Serve has returned but the context of a handler that is still running is not done",
                  "5": "leak: Serve and every handler have returned but the writer, a worker or a handler goroutine is still alive",
